@@ -66,6 +66,67 @@ func VH_stree_HeightStep() {
 	vInvariant(t.max >= t.size, "size <= max")
 }
 
+// VH_stree_HeightStepAbs: the inductive height step with an ABSTRACT depth
+// limit. The tree's limit function is replaced by a table L[0..n+2] of solver
+// variables constrained only by the two facts about the real limitFunc(β) that
+// VH_stree_LimitTable establishes for every β (monotone in n; at least
+// floor(log2 n), which is the height a rebuild produces). The step must then
+// re-establish depth <= L[P]+1, whatever the table is: this is the induction
+// of DESIGN §5 C02 for all balance factors at once. (The removal rule still
+// uses a concrete β, which in this harness is independent of L: more
+// behaviours than the real code has, never fewer.)
+func VH_stree_HeightStepAbs() {
+	n := vCase("n")
+	beta := vBeta()
+	root := vShape(n)
+	var ref []vKT
+	vFill(root, &ref)
+	N := n + 2
+	L := make([]int, N+1)
+	for k := 1; k <= N; k++ {
+		L[k] = vRange("L", vFloorLog2(k), k+1)
+		vAssume(L[k] >= L[k-1])
+	}
+	P := n + vChoice("peak-extra", 3)
+	if n == 0 {
+		P = 0
+	}
+	if P > N {
+		vAssume(false)
+	}
+	if n > 0 {
+		vAssume(vDepth(root) <= L[P]+1)
+	}
+	max := n
+	switch vChoice("max", 3) {
+	case 1:
+		max = P
+	case 2:
+		max = 1000
+	}
+	if n < (max*beta+maxBalance)/fracLimit {
+		vAssume(false)
+	}
+	t := vMkTree(root, beta, n, max)
+	t.limit = func(k int) int {
+		vInvariant(k >= 0 && k <= N, "limit is asked only for sizes up to size+1")
+		return L[k]
+	}
+	ref = vApplyOp(t, ref, vCase("op"), 100, "abstract height step")
+	if len(ref) > P {
+		P = len(ref)
+	}
+	if len(ref) == 0 {
+		P = 0
+	}
+	vCover("abs-height-step")
+	if P == 0 {
+		vAssert(t.root == nil, "an emptied tree has no nodes")
+		return
+	}
+	vAssert(vDepth(t.root) <= L[P]+1, "depth <= limit(P)+1 is re-established for every admissible limit table")
+}
+
 // vAPIDepth measures depth through the exported cursor API only.
 func vAPIDepth(c *Cursor[vKT]) int {
 	if !c.Valid() {
